@@ -229,12 +229,17 @@ func (c *localCache) ReadCh(ctx context.Context, name string, opts *Opts, paths 
 				if e == nil {
 					continue //
 				}
-				outCh <- &Update{
+				// the reader might be gone (e.g. a stream failed while forwarding the updates)
+				select {
+				case <-ctx.Done():
+					return
+				case outCh <- &Update{
 					path:     e.P,
 					value:    e.V,
 					priority: e.Priority,
 					owner:    e.Owner,
 					ts:       int64(e.Timestamp),
+				}:
 				}
 			}
 		}
